@@ -74,8 +74,9 @@ def g1(F, res):
             a = atoms(w)
             present = any(re.search(rx, n) for n in names(w))
             if flag not in a:
-                # the world never consulted the flag: the step must be absent (e.g. loop not entered)
-                if present:
+                # the world never consulted the flag: for a per-section switch (in a loop) the step must be absent;
+                # a top-level switch has to be consulted in every configuration, or another switch is gating it
+                if present or (gi < 3 and w.outcome == 'return'):
                     n_bad += 1
                 continue
             seen_flag = True
